@@ -13,7 +13,7 @@ trap 'git -C /repo worktree remove --force "$wt"' EXIT
 export OMP_NUM_THREADS=2 PYTHONDONTWRITEBYTECODE=1
 cd "$wt"
 PYTHONPATH="$wt" timeout 600 /venv/bin/python "$src/demo.py" > "$wt.clean.log" 2>&1; rc_clean=$?
-git apply "$src/patch.diff" || { echo "$id $mk: patch does not apply"; exit 2; }
+git apply "$src/patch.diff" 2>/dev/null || patch -s -p1 --fuzz=3 < "$src/patch.diff" || { echo "$id $mk: patch does not apply"; exit 2; }
 PYTHONPATH="$wt" timeout 600 /venv/bin/python "$src/demo.py" > "$wt.mut.log" 2>&1; rc_mut=$?
 PYTHONPATH="$wt" timeout 1500 /venv/bin/python -m pytest -q -p no:cacheprovider --timeout=900 unit_scaling/tests \
   --deselect unit_scaling/tests/test_analysis.py::test_example_seqs --deselect unit_scaling/tests/test_analysis.py::test_create_batch \
